@@ -93,10 +93,35 @@ def scenario(name):
                 return out
             return run
         return post(body, "multipart/form-data; boundary=bb"), post(b"k=v&k=w&z=%C3%A9", "application/x-www-form-urlencoded")
+    if name in ("hosts", "subpaths"):
+        from baize import wsgi
+
+        def ep(tag):
+            def app(environ, start_response):
+                start_response("200 OK", [])
+                return [f"{tag}|{environ.get('SCRIPT_NAME', '')}|{environ.get('PATH_INFO', '')}".encode()]
+            return app
+        if name == "hosts":
+            app = wsgi.Hosts((r"a\.example", ep("A")), (r"b\.example(:\d+)?", ep("B")), (r".*\.wild\.example", ep("W")))
+
+            def get(host):
+                def run():
+                    r = drivers.run_wsgi(app, drivers.to_environ(drivers.Req(path=b"/p", headers=[("Host", host)])))
+                    return (r.code, r.body, type(r.exc).__name__ if r.exc is not None else None)
+                return run
+            return get("b.example:81"), get("a.example")
+        app = wsgi.Subpaths(("/api/v1", ep("V1")), ("/api", ep("API")), ("", ep("ROOT")))
+
+        def get(path):
+            def run():
+                r = drivers.run_wsgi(app, drivers.to_environ(drivers.Req(path=path.encode(), root=b"/mnt")))
+                return (r.code, r.body, type(r.exc).__name__ if r.exc is not None else None)
+            return run
+        return get("/api/v1/x"), get("/other")
     raise SystemExit(f"unknown scenario {name}")
 
 
-SCENARIOS = ["cookie", "request-url", "sse", "router", "file", "form"]
+SCENARIOS = ["cookie", "request-url", "sse", "router", "file", "form", "hosts", "subpaths"]
 
 
 def main(argv):
